@@ -55,7 +55,7 @@ CHECKS = {
         "category": "proof",
         "text": "Verus proves for every base, IRI and heuristic candidate that Relativizer::relativize (real function text, extracted each run) returns Some(r) only if r is a valid IRI reference and BaseIri::resolve(base, r) returned exactly the IRI: the function's resolve-and-compare guard makes the soundness half of the property hold whatever the prefix heuristic computes.",
         "design_ref": "DESIGN.md 5 (C17), 8.3",
-        "note": "Trusted: Verus/z3; BaseIri::resolve (oxiri) as the definition of RFC 3986 resolution; IriRef::new as the validity test. The parent-step bound, completeness (IRIs equal to the base up to query/fragment are always relativised) and Relativizer::new are covered only by a labelled bounded native stand-in (168 810 enumerated triples).",
+        "note": "Trusted: Verus/z3; BaseIri::resolve (oxiri) as the definition of RFC 3986 resolution; IriRef::new as the validity test. The parent-step bound, completeness (IRIs equal to the base up to query/fragment are always relativised) and Relativizer::new are covered only by a labelled bounded native stand-in (169 800 enumerated triples).",
         "technique": "deductive verification (Verus postcondition over an abstracted callee) of mechanically extracted code",
     },
     "C19": {
@@ -79,7 +79,7 @@ CHECKS = {
         "category": "model_checking",
         "text": "Bounded Kani harnesses check the forwarding contracts of the real view adapters against a recording store: matchers reach the store in the right positions, the graph position carries Any / the selector / exactly the view's graph name, graph names are dropped/added, mutations carry the view's graph name and return the store's flag, GraphAsDataset answers only for the default graph.",
         "design_ref": "DESIGN.md 5 (C11)",
-        "note": "Bounded: probe matchers and three probe graph names. Coherence with the store's content then follows from the store's own quads_matching contract (C01), which is assumed here. Trusted: Kani/CBMC, validator stubs.",
+        "note": "Bounded: probe matchers and three probe graph names. Coherence with the store's content then follows from the store's own quads_matching contract (C01), which is assumed here. The views over the real stores (incl. remove_matching / retain_matching through a mutable view, term enumerations) are additionally enumerated natively on 660 small datasets as a labelled bounded stand-in. Trusted: Kani/CBMC, validator stubs.",
         "technique": "Kani proof harnesses with a contract-recording stand-in for the callee (modular: the view is checked against the store's contract, not its body), bounded",
     },
     "C15": {
@@ -95,7 +95,7 @@ CHECKS = {
         "category": "proof",
         "text": "Kani proves on the real code, for EVERY i32 (quick) and every isize/usize (thorough), that lexical_form() lies in the xsd:integer lexical space (full domain, digit loops bounded by type width, unwinding assertions on), and that both bools round-trip; the three non-finite f64 representatives give INF/-INF/NaN (bounded: representatives).",
         "design_ref": "DESIGN.md 5 (C20)",
-        "note": "Trusted: Kani/CBMC, validator stubs (regex engine out of reach). NOT covered: finite f64 (shortest round-trip fmt / dec2flt), full-domain integer round trip parse(format(x)) == x (CBMC does not finish; measured > 1 h), try_from_term on arbitrary lexical forms.",
+        "note": "Trusted: Kani/CBMC, validator stubs (regex engine out of reach). Finite f64 values (shortest round-trip fmt / dec2flt), integer round trips parse(format(x)) == x and try_from_term on boundary / special lexical forms are out of CBMC's reach (measured > 1 h) and are only sampled by a labelled bounded native stand-in (200 000 f64 bit patterns, every decimal and binary exponent, out-of-range and non-XSD forms).",
         "technique": "Kani proof harnesses over the full machine domain of the native type (complete), representatives for non-finite floats (bounded)",
     },
     "C03": {
@@ -103,7 +103,7 @@ CHECKS = {
         "category": "proof",
         "text": "Verus proves, for every term value at every nesting depth, that write_term / write_triple (real function text, extracted each run) write exactly the N-Triples term syntax fmt_term(t) - <iri>, _:label, \"esc(lex)\" with @tag or ^^<dt> iff the datatype is not xsd:string, << s p o >> - and for all byte strings that quoted_string writes exactly esc(lexical form); lemmas over esc give unesc(esc(s)) == s, one statement per line, image inside the W3C STRING_LITERAL_QUOTE body, UTF-8 preserved.",
         "design_ref": "DESIGN.md 4.5, 5 (C03)",
-        "note": "Trusted: Verus/z3, write_all contract, byte-literal axioms L1 (cross-checked by the rustc guard), rewrites R1/R3/R4 (R1/R4 guarded differentially), Rio parser conformance to the W3C grammar; term framing is bounded (Kani, 1-byte components), statement framing is a labelled bounded native stand-in (240 quads through the real serializers and parsers).",
+        "note": "Trusted: Verus/z3, write_all contract, byte-literal axioms L1 (cross-checked by the rustc guard), rewrites R1/R3/R4 (R1/R4 guarded differentially), Rio parser conformance to the W3C grammar; term framing is bounded (Kani, 1-byte components), statement framing is a labelled bounded native stand-in (324 quads through the real serializers and parsers).",
         "technique": "deductive verification (Verus pre/postconditions, loop invariants, lemmas) of mechanically extracted code",
     },
 }
